@@ -49,7 +49,7 @@ def showSU (su : DbUpdates) : String :=
   "[" ++ ";".intercalate (su.map (fun nn => s!"{nn.1}" ++ "{" ++ showNodeUpd nn.2 ++ "}")) ++ "]"
 
 def showEvents (evs : List Event) : String :=
-  "[" ++ ",".intercalate (evs.map (fun e => s!"{if e.force then 1 else 0}:{e.emitter}:{e.name}:{e.payload}")) ++ "]"
+  "[" ++ ",".intercalate (evs.map (fun e => s!"{e.emitter}:{e.name}:{e.payload}")) ++ "]"
 
 def showRes : Track.Res → String
   | .unit => "ok"
@@ -202,6 +202,10 @@ def stepLine (s : DS) (line : String) : DS × String :=
         if s.phase ≠ 2 then (s, "wrong-phase") else ({ s with finEvents := s.finEvents ++ [e] }, "ok")
       | none, none, none, some (succ, fi) =>
         if ¬ executing then (s, "wrong-phase") else
+        -- the payment list of the line is cycled over the fee locks (`-` = no payments at all)
+        let nl := (txOf s).locked.length
+        let pays := if fi.payments.isEmpty then [] else (List.range nl).map (fun i => fi.payments.getD (i % fi.payments.length) 0)
+        let fi := { fi with payments := pays }
         match commitReceipt succ (txOf s) sys fi with
         | .commit sc nn su evs => ({ s with phase := 3 }, showReceipt sc nn su evs)
         | _ => ({ s with phase := 9 }, "panic")
